@@ -166,7 +166,7 @@ class Jmp8Relocation(Relocation):
 
     def calc(self, sym_value, reloc_value):
         offset = sym_value - (reloc_value + 1)
-        return offset
+        return wrap_negative(offset, 8)
 
 
 @isa.register_relocation
